@@ -1,7 +1,7 @@
 """Reference decode loop, independent of rl4co.utils.decoding (DecodingStrategy / process_logits / get_log_likelihood).
 
     ref = reference_logprobs(policy, env, td_reset, actions, num_starts=0, forced_first=False,
-                             temperature=None, tanh_clipping=None)
+                             temperature=None, tanh_clipping=None, top_k=0, top_p=0.0, keep_tables=False)
 
 replays a *given* action tensor through the policy's encoder / decoder modules and `env.step`, following the call
 sequence of ConstructivePolicy.forward:
@@ -12,6 +12,7 @@ sequence of ConstructivePolicy.forward:
     td, env, cache = policy.decoder.pre_decoder_hook(td, env, hidden, num_starts)
     per step:  logits, mask = policy.decoder(td, cache, num_starts)
                reference log-softmax (float64) of   tanh(logits) * C  (if C > 0)  ->  -inf outside mask  ->  / T
+                                                    ->  top-k filter  ->  top-p filter   (ref_filter; off by default)
                record log-prob of actions[:, t], mask membership, top-2 gap, entropy;  env.step with actions[:, t]
 
 `temperature` T / `tanh_clipping` C default to the policy's own attributes (what a call without decoding kwargs uses).
@@ -29,6 +30,17 @@ Returned `Ref` fields (R = k*B rows if num_starts >= 2 else B; T = actions.shape
     done_at  [R]   int64     number of steps after which the row reported done (T+1 if never)
     all_done_at int          number of steps after which every row was done (None if never) - the bundled loop stops there
     td       final TensorDict
+  with top_k > 0 or 0 < top_p < 1 (documented semantics of process_logits: the filters follow masking / temperature and
+  precede the softmax, i.e. the step distribution is renormalised over the kept entries; see ref_filter):
+    logp / gap / entropy refer to the FILTERED, renormalised distribution (logp = -inf: the action was filtered out)
+    nfeas    still counts the mask-feasible actions;   nkept [R,T] int64 counts the entries surviving the filters
+    ambig    [R,T] bool      the kept set depends on float rounding (near-tie at the k-th value / at the nucleus cut):
+                             comparisons at such steps are don't-care
+    ambig_x  [R,T] bool      same with the wider band BAND_X, for comparisons with a run in another batch layout
+    argmax   [R,T] int64     most probable action of the reference step distribution (-1 at forced steps)
+    tables   (keep_tables)   per step None (forced) or dict(logits=decoder logits [R,N], mask=[R,N] bool, lp=reference
+                             log-prob table [R,N] float64)
+  with the defaults nkept == nfeas, ambig is all False and every other field is what it was without these options.
 
 The whole thing runs under torch.no_grad(); the policy's train/eval mode is left as is.
 
@@ -57,24 +69,96 @@ class Ref:
     done_at: torch.Tensor
     all_done_at: Optional[int]
     td: object
+    nkept: Optional[torch.Tensor] = None
+    ambig: Optional[torch.Tensor] = None
+    ambig_x: Optional[torch.Tensor] = None
+    argmax: Optional[torch.Tensor] = None
+    tables: Optional[list] = None
 
     def decisive(self, thr=1e-4):
         """[R,T] bool: step is decisive (top-2 gap above thr) or has a single feasible action."""
         return self.gap > thr
 
 
-def ref_log_softmax(logits, mask, temperature=1.0, tanh_clipping=0.0, with_scale=False):
-    """float64 reference of the documented step distribution: tanh clipping, masking, temperature, softmax."""
+BAND = 1e-5    # relative width of the "rounding could decide this" band around a filter cut (float32 eps ~ 1.2e-7)
+BAND_X = 2e-3  # same, for comparisons ACROSS batch layouts ([B,S,..] vs [S*B,..]): float32 rounding differs between
+#                layouts and is amplified by the spread-initialised encoders (log-probs measured up to 5e-4 apart)
+
+
+def ref_filter(z, top_k=0, top_p=0.0, bands=(BAND,)):
+    """Kept set of the documented top-k / top-p filters (process_logits: top-k first, then top-p on what is left).
+
+    z [R,N] float64: scaled logits (after tanh clipping / temperature), -inf outside the mask.
+    top-k  keeps every entry >= the k-th largest value (k capped at N; entries tying with the k-th are all kept).
+    top-p  (0 < p < 1) keeps an entry iff the mass, under the softmax of the entries left by top-k, of the entries
+           ranked strictly above it is < p: the smallest high-probability prefix whose mass reaches p.
+    -> keep [R,N] bool, [ambig [R] bool for band in bands].  ambig: the kept set hinges on rounding (the code under test
+    works in the policy's dtype, usually float32): a feasible entry lies below the k-th value by less than
+    band*(1+max|z|), or the optimistic nucleus (only entries above by more than the band count as "above", cut at
+    p+band) differs from the pessimistic one (every other entry not below by more than the band counts as "above", cut
+    at p-band); the latter also flags blocks of tied entries straddling the nucleus cut, whose order is arbitrary.
+    (Entries tying EXACTLY with the k-th value in float64 also tie in float32 - same inputs, monotone maps - and are
+    kept by both; they are not ambiguous.)"""
+    R, N = z.shape
+    ninf = -math.inf
+    feas = z > ninf
+    keep = feas.clone()
+    ambig = [torch.zeros(R, dtype=torch.bool) for _ in bands]
+    mag = 1 + torch.where(feas, z.abs(), torch.zeros_like(z)).max(-1).values  # [R]
+    if top_k and top_k > 0:
+        kk = min(int(top_k), N)
+        kth = torch.topk(z, kk, dim=-1).values[:, -1]  # -inf if fewer than k feasible entries: nothing is removed
+        keep = feas & (z >= kth.view(R, 1))
+        for i, band in enumerate(bands):
+            near = feas & ~keep & (z >= (kth - band * mag).view(R, 1))
+            ambig[i] |= near.any(-1)
+    if top_p and 0.0 < top_p < 1.0:
+        zz = torch.where(keep, z, torch.full_like(z, ninf))
+        d = zz - zz.max(-1, keepdim=True).values
+        q = torch.exp(d)
+        q = q / q.sum(-1, keepdim=True)
+        zi, zj, qj = zz.view(R, N, 1), zz.view(R, 1, N), q.view(R, 1, N)
+        other = ~torch.eye(N, dtype=torch.bool).view(1, N, N)
+        above = (qj * (zj > zi)).sum(-1)                          # mass ranked strictly above entry i
+        exact = keep & (above < top_p)
+        for i, band in enumerate(bands):
+            b3 = (band * mag).view(R, 1, 1)
+            above_lo = (qj * (zj > zi + b3)).sum(-1)              # ... certainly above
+            above_hi = (qj * ((zj >= zi - b3) & other)).sum(-1)   # ... possibly above (near-ties, arbitrary tie order)
+            opt = keep & (above_lo < top_p + band)
+            pes = keep & (above_hi < top_p - band)
+            ambig[i] |= (opt != pes).any(-1)
+        keep = exact
+    return keep, ambig
+
+
+def ref_log_softmax(logits, mask, temperature=1.0, tanh_clipping=0.0, with_scale=False, top_k=0, top_p=0.0,
+                    with_filter=False):
+    """float64 reference of the documented step distribution: tanh clipping, masking, temperature, [top-k, top-p,]
+    softmax.  with_filter: additionally return (nfeas [R] mask-feasible count, ambig [R] bool at BAND, ambig_x [R] bool
+    at BAND_X) - see ref_filter."""
     z = logits.detach().to(torch.float64).clone()
     if tanh_clipping and tanh_clipping > 0:
         z = torch.tanh(z) * float(tanh_clipping)
     z = z / float(temperature)
     scale = torch.where(mask, z.abs(), torch.zeros_like(z)).max(-1).values
     z = torch.where(mask, z, torch.full_like(z, -math.inf))
+    filtering = bool((top_k and top_k > 0) or (top_p and 0.0 < top_p < 1.0))
+    nfeas = ambig = ambig_x = None
+    if with_filter:
+        nfeas = (z > -math.inf).sum(-1)
+        ambig = torch.zeros(z.shape[0], dtype=torch.bool)
+        ambig_x = ambig.clone()
+    if filtering:
+        keep, (ambig, ambig_x) = ref_filter(z, top_k, top_p, (BAND, BAND_X))
+        z = torch.where(keep, z, torch.full_like(z, -math.inf))
     m = z.max(-1, keepdim=True).values
     d = z - m
     lp = d - torch.log(torch.exp(d).sum(-1, keepdim=True))
-    return (lp, scale) if with_scale else lp
+    out = (lp, scale) if with_scale else (lp,)
+    if with_filter:
+        out = out + (nfeas, ambig, ambig_x)
+    return out if len(out) > 1 else lp
 
 
 def _step_record(lp, env_mask, a):
@@ -96,7 +180,7 @@ def _step_record(lp, env_mask, a):
 
 @torch.no_grad()
 def reference_logprobs(policy, env, td_reset, actions, num_starts=0, forced_first=False, temperature=None,
-                       tanh_clipping=None):
+                       tanh_clipping=None, top_k=0, top_p=0.0, keep_tables=False):
     T_ = float(policy.temperature if temperature is None else temperature)
     C_ = float(policy.tanh_clipping if tanh_clipping is None else tanh_clipping)
     td = td_reset.clone()
@@ -122,6 +206,11 @@ def reference_logprobs(policy, env, td_reset, actions, num_starts=0, forced_firs
     done_at = torch.full((R,), T + 1, dtype=torch.long)
     all_done_at = None
     mask_ok = True
+    nkept = torch.zeros(R, T, dtype=torch.long)
+    ambig = torch.zeros(R, T, dtype=torch.bool)
+    ambig_x = torch.zeros(R, T, dtype=torch.bool)
+    amax = torch.full((R, T), -1, dtype=torch.long)
+    tables = [None] * T if keep_tables else None
 
     def note_done(td, t_after):
         nonlocal all_done_at
@@ -136,6 +225,7 @@ def reference_logprobs(policy, env, td_reset, actions, num_starts=0, forced_firs
         em = td["action_mask"]
         inm[:, 0] = em.gather(1, A[:, :1]).squeeze(1)
         nfe[:, 0] = em.sum(-1)
+        nkept[:, 0] = nfe[:, 0]
         forced[0] = True
         td.set("action", A[:, 0].clone())
         td = env.step(td)["next"]
@@ -150,12 +240,18 @@ def reference_logprobs(policy, env, td_reset, actions, num_starts=0, forced_firs
         mask = mask.clone()
         if mask.shape != env_mask.shape or not torch.equal(mask, env_mask):
             mask_ok = False
-        lp, scl[:, t] = ref_log_softmax(logits, mask, T_, C_, with_scale=True)
-        logp[:, t], inm[:, t], gap[:, t], nfe[:, t], ent[:, t] = _step_record(lp, env_mask, A[:, t])
+        lp, scl[:, t], nf, ambig[:, t], ambig_x[:, t] = ref_log_softmax(logits, mask, T_, C_, with_scale=True, top_k=top_k,
+                                                                        top_p=top_p, with_filter=True)
+        logp[:, t], inm[:, t], gap[:, t], nkept[:, t], ent[:, t] = _step_record(lp, env_mask, A[:, t])
+        nfe[:, t] = nf  # mask-feasible entries (== nkept unless a filter is active)
+        amax[:, t] = lp.argmax(-1)
+        if keep_tables:
+            tables[t] = dict(logits=logits.clone(), mask=mask.clone(), lp=lp)
         td.set("action", A[:, t].clone())
         td = env.step(td)["next"]
         note_done(td, t + 1)
-    return Ref(logp, inm, forced, gap, nfe, ent, scl, mask_ok, done_at, all_done_at, td)
+    return Ref(logp, inm, forced, gap, nfe, ent, scl, mask_ok, done_at, all_done_at, td, nkept, ambig, ambig_x, amax,
+               tables)
 
 
 @torch.no_grad()
